@@ -105,8 +105,8 @@ def _mutations(merge_expr: exp.Merge) -> list[exp.Expression]:
     """
     target_tbl = merge_expr.this
     source = merge_expr.args.get("using")
-    # a subquery or an aliased table is referred to by its alias
-    source_tbl = source.alias if isinstance(source, exp.Subquery) or source.alias else source
+    # a subquery or an aliased table is referred to by its alias, a (possibly qualified) table by its name
+    source_tbl = source.alias if isinstance(source, exp.Subquery) or source.alias else source.this
     join_expr = merge_expr.args.get("on")
 
     statements: list[exp.Expression] = []
